@@ -788,6 +788,25 @@ def o_c06(spec, spec2, flipped):
         return 'switching %s from returning to raising changes the run: %s' % (flipped, d)
     if (r1.verdict, type(r1.exc)) != (r2.verdict, type(r2.exc)):
         return 'verdict changes: %r/%r vs %r/%r' % (r1.verdict, r1.exc, r2.verdict, r2.exc)
+
+    # "with the same results": whose exception a failed scheduler lets out must not depend on the flip either
+    def origin(b, exc):
+        for n_, o in b.objs.items():
+            if getattr(o, 'exc', None) is exc:
+                return n_
+        return type(exc).__name__
+
+    def outcomes(b, v, r):
+        out = {}
+        for e in v.ev:
+            if e[2] == 'exit-raise' and v.is_sched(e[3]):
+                out[e[3]] = origin(b, e[4].get('exc'))
+        if r.exc is not None:
+            out['<run>'] = origin(b, r.exc)
+        return out
+    o1, o2 = outcomes(b1, v1, r1), outcomes(b2, v2, r2)
+    if o1 != o2:
+        return 'switching %s from returning to raising changes whose exception a scheduler raises: %s vs %s' % (flipped, o1, o2)
     for f in flipped:
         o = b2.objs[f]
         if v2.first(f, 'exit-raise') and o.raised_exception() is not o.exc:
